@@ -132,6 +132,7 @@ Definition dispatch0 (line : list N) : list N * list N :=
       else if is "rc" op then (m_rc (parse_nat a) (parse_dec b), s_rc (parse_nat a) (parse_dec b))
       else if is "dec" op then (m_dec (parse_nat a) (parse_dec b), s_dec (parse_nat a) (parse_dec b))
       else if is "cgr" op then (m_cgr (parse_Z a) (parse_hex b), s_cgr (parse_Z a) (parse_hex b))
+      else if is "readc" op then (show_readc (parse_hex_list b), show_readc (parse_hex_list b))
       else if is "cbatch" op then (m_cbatch (parse_Z a) (parse_hex_list b), s_cbatch (parse_Z a) (parse_hex_list b))
       else unknown
   | [op; a] =>
